@@ -9,6 +9,7 @@ import (
 
 	"encoding/json"
 	"sort"
+	"sync"
 
 	"github.com/flant/shell-operator/pkg/task"
 	"github.com/flant/shell-operator/pkg/task/dump"
@@ -33,6 +34,7 @@ type taskPool struct {
 	pct   int
 	rng   *Rng
 	force bool
+	sp    *idSpell
 }
 
 func newTaskPool(rng *Rng, pct int) *taskPool {
@@ -43,6 +45,7 @@ func (p *taskPool) get(id int) task.Task {
 	if p == nil {
 		return mkTask(id)
 	}
+	mkTask := p.sp.mk
 	if t, ok := p.last[id]; ok && (p.force || (p.pct > 0 && p.rng != nil && p.rng.Intn(100) < p.pct)) {
 		return t
 	}
@@ -56,6 +59,99 @@ func taskID(t task.Task) string {
 		return "nil"
 	}
 	return t.GetId()
+}
+
+// idSpell is the spelling of the task ids of one case. The protocol (op lines, observations, oracle
+// lines) speaks of ids as numbers; on the real queue the id of a task is a Go string, and an ordinary
+// list treats EVERY string alike. By default id n is spelled strconv.Itoa(n); a case with a spelling
+// writes some of its ids as unusual strings (the empty string - a task.BaseTask built without Id -, a
+// blank, a NUL byte, a string that only differs from another id by a trailing blank or by case, a very
+// long one, non-ASCII). The spelling is a bijection, so every observation is translated back.
+type idSpell struct {
+	to   map[int]string
+	from map[string]int
+}
+
+var c05OddSpellings = []string{"", "", "", " ", "\x00", "1 ", " 2", "T", "t", "\n", "\u2163", "nil ", "-1", "01", "+3",
+	strings.Repeat("x", 300)}
+
+// newIdSpell spells k of the given ids (distinct ones) oddly; every odd string is used at most once.
+func newIdSpell(rng *Rng, ids []int, k int) *idSpell {
+	sp := &idSpell{to: map[int]string{}, from: map[string]int{}}
+	for ; k > 0; k-- {
+		id := PickOne(rng, ids)
+		str := PickOne(rng, c05OddSpellings)
+		if _, ok := sp.to[id]; ok {
+			continue
+		}
+		if _, ok := sp.from[str]; ok {
+			continue
+		}
+		sp.to[id], sp.from[str] = str, id
+	}
+	return sp
+}
+
+func (sp *idSpell) str(id int) string {
+	if sp != nil {
+		if s, ok := sp.to[id]; ok {
+			return s
+		}
+	}
+	return strconv.Itoa(id)
+}
+
+// name: the protocol name (the number) of a task id string of the real queue.
+func (sp *idSpell) name(s string) string {
+	if sp != nil {
+		if id, ok := sp.from[s]; ok {
+			return strconv.Itoa(id)
+		}
+	}
+	return s
+}
+
+func (sp *idSpell) id(t task.Task) string {
+	if t == nil {
+		return "nil"
+	}
+	return sp.name(t.GetId())
+}
+
+func (sp *idSpell) mk(id int) task.Task {
+	t := task.NewTask("T")
+	t.Id = sp.str(id)
+	return t
+}
+
+func (sp *idSpell) describe() string {
+	if sp == nil || len(sp.to) == 0 {
+		return ""
+	}
+	var ks []int
+	for k := range sp.to {
+		ks = append(ks, k)
+	}
+	sort.Ints(ks)
+	var out []string
+	for _, k := range ks {
+		str := sp.to[k]
+		if len(str) > 12 {
+			str = str[:12] + "..."
+		}
+		out = append(out, fmt.Sprintf("%d=%q", k, str))
+	}
+	return "ids spelled " + strings.Join(out, " ")
+}
+
+// c05Spells: the spelling of the ids of a live queue (set by workerQ.setSpell, dropped by close).
+var c05Spells sync.Map // *queue.TaskQueue -> *idSpell
+
+func spellOf(q *queue.TaskQueue) *idSpell {
+	if v, ok := c05Spells.Load(q); ok {
+		return v.(*idSpell)
+	}
+	return nil
 }
 
 // c05Join writes a list of slots ("nil" or a number); a maximal run of >= 3 consecutive ascending
@@ -108,6 +204,7 @@ func c05JoinInts(xs []int) string {
 
 // qObs is the observation function of C05: Iterate / Length / GetFirst / GetLast after each op.
 func qObs(q *queue.TaskQueue, cur, ret string) string {
+	taskID := spellOf(q).id
 	return Catch(func() string {
 		var ids []string
 		q.Iterate(func(t task.Task) { ids = append(ids, taskID(t)) })
@@ -117,6 +214,7 @@ func qObs(q *queue.TaskQueue, cur, ret string) string {
 }
 
 func qItems(q *queue.TaskQueue) string {
+	taskID := spellOf(q).id
 	return Catch(func() string {
 		var ids []string
 		q.Iterate(func(t task.Task) { ids = append(ids, taskID(t)) })
@@ -142,9 +240,22 @@ type workerQ struct {
 	parked   *verifsched.Arrival
 
 	pool *taskPool // nil: a fresh task object for every add
+	sp   *idSpell  // nil: every id is spelled as its decimal number
 }
 
-func (w *workerQ) task(id int) task.Task { return w.pool.get(id) }
+func (w *workerQ) task(id int) task.Task {
+	if w.pool == nil {
+		return w.sp.mk(id)
+	}
+	w.pool.sp = w.sp
+	return w.pool.get(id)
+}
+
+// setSpell: from now on the ids of this queue are spelled by sp (call it before the first op).
+func (w *workerQ) setSpell(sp *idSpell) {
+	w.sp = sp
+	c05Spells.Store(w.q, sp)
+}
 
 func (w *workerQ) tasks(ids []int) []task.Task {
 	var ts []task.Task
@@ -167,7 +278,7 @@ func newWorkerQ(name string) *workerQ {
 	q.DelayOnRepeat = time.Millisecond
 	q.ExponentialBackoffFn = func(int) time.Duration { return time.Millisecond }
 	q.WithHandler(func(t task.Task) queue.TaskResult {
-		w.picked <- taskID(t)
+		w.picked <- w.sp.id(t)
 		return <-w.result
 	})
 	w.q = q
@@ -277,6 +388,7 @@ func (w *workerQ) filter(fn func(task.Task) bool) string {
 }
 
 func (w *workerQ) close() {
+	defer c05Spells.Delete(w.q)
 	sched.Unsubscribe(w.name)
 	w.cancel()
 	if w.parked != nil {
@@ -303,6 +415,7 @@ func (w *workerQ) close() {
 // removal waited for the walk, and what it returned.
 func (w *workerQ) iterRemove(park, id int) ([]string, int, string) {
 	q := w.q
+	taskID, idStr := w.sp.id, w.sp.str
 	inside, goOn, done := make(chan struct{}), make(chan struct{}), make(chan struct{})
 	var seen []string
 	go func() {
@@ -331,10 +444,10 @@ func (w *workerQ) iterRemove(park, id int) ([]string, int, string) {
 	}
 	if !parked {
 		close(goOn)
-		return seen, 0, Catch(func() string { return taskID(q.Remove(strconv.Itoa(id))) })
+		return seen, 0, Catch(func() string { return taskID(q.Remove(idStr(id))) })
 	}
 	rd := make(chan string, 1)
-	go func() { rd <- Catch(func() string { return taskID(q.Remove(strconv.Itoa(id))) }) }()
+	go func() { rd <- Catch(func() string { return taskID(q.Remove(idStr(id))) }) }()
 	blocked, ret := 0, ""
 	select {
 	case ret = <-rd:
@@ -376,6 +489,7 @@ func c05Op(c *Case, w *workerQ, op string, args []int, st string, h, a, tl []int
 		return
 	}
 	q := w.q
+	taskID, idStr := w.sp.id, w.sp.str
 	ret := "-"
 	var line string
 	switch op {
@@ -387,13 +501,13 @@ func c05Op(c *Case, w *workerQ, op string, args []int, st string, h, a, tl []int
 		ret = Catch(func() string { q.AddLast(w.task(args[0])); return "-" })
 	case "addAfter":
 		line = fmt.Sprintf("addAfter %d %d", args[0], args[1])
-		ret = Catch(func() string { q.AddAfter(strconv.Itoa(args[0]), w.task(args[1])); return "-" })
+		ret = Catch(func() string { q.AddAfter(idStr(args[0]), w.task(args[1])); return "-" })
 	case "addBefore":
 		line = fmt.Sprintf("addBefore %d %d", args[0], args[1])
-		ret = Catch(func() string { q.AddBefore(strconv.Itoa(args[0]), w.task(args[1])); return "-" })
+		ret = Catch(func() string { q.AddBefore(idStr(args[0]), w.task(args[1])); return "-" })
 	case "remove":
 		line = fmt.Sprintf("remove %d", args[0])
-		ret = Catch(func() string { return taskID(q.Remove(strconv.Itoa(args[0]))) })
+		ret = Catch(func() string { return taskID(q.Remove(idStr(args[0]))) })
 	case "removeFirst":
 		line = "removeFirst"
 		ret = Catch(func() string { return taskID(q.RemoveFirst()) })
@@ -404,12 +518,12 @@ func c05Op(c *Case, w *workerQ, op string, args []int, st string, h, a, tl []int
 		line = "filter " + c05JoinInts(args)
 		keep := map[string]bool{}
 		for _, i := range args {
-			keep[strconv.Itoa(i)] = true
+			keep[idStr(i)] = true
 		}
-		ret = w.filter(func(t task.Task) bool { return keep[taskID(t)] })
+		ret = w.filter(func(t task.Task) bool { return keep[t.GetId()] })
 	case "get":
 		line = fmt.Sprintf("get %d", args[0])
-		ret = Catch(func() string { return taskID(q.Get(strconv.Itoa(args[0]))) })
+		ret = Catch(func() string { return taskID(q.Get(idStr(args[0]))) })
 	case "pick":
 		line = "pick"
 		ret = w.pick()
@@ -548,12 +662,12 @@ func (s *qset) op(k int, op string, args []int, st string, h, a, tl []int) {
 }
 
 func headID(q *queue.TaskQueue) (int, bool) {
-	n, err := strconv.Atoi(Catch(func() string { return taskID(q.GetFirst()) }))
+	n, err := strconv.Atoi(Catch(func() string { return spellOf(q).id(q.GetFirst()) }))
 	return n, err == nil
 }
 
 func lastID(q *queue.TaskQueue) (int, bool) {
-	n, err := strconv.Atoi(Catch(func() string { return taskID(q.GetLast()) }))
+	n, err := strconv.Atoi(Catch(func() string { return spellOf(q).id(q.GetLast()) }))
 	return n, err == nil
 }
 
@@ -587,7 +701,7 @@ func (s *qset) shrink(k int, route string, left, maxOps int) {
 			i := 0
 			w.q.Iterate(func(t task.Task) {
 				if i < left {
-					if id, err := strconv.Atoi(taskID(t)); err == nil {
+					if id, err := strconv.Atoi(w.sp.id(t)); err == nil {
 						keep = append(keep, id)
 					}
 				}
@@ -625,6 +739,18 @@ func c05Set(c *Case, rng *Rng) {
 	withWorker := rng.Chance(30)
 	bias := PickOne(rng, c05DrainRoutes)
 	c.Desc = fmt.Sprintf("%d live queues, drains mostly by %s", nq, bias)
+	if rng.Chance(33) {
+		// one spelling of the ids for all queues of the set (they share the task objects)
+		sp := newIdSpell(rng, []int{1, 2, 3, 4, 1, 2, 3, 4, 5, 6, 7, 8}, rng.Range(1, 3))
+		for _, w := range s.ws {
+			w.setSpell(sp)
+		}
+		c.Desc += ", " + sp.describe()
+		c.Note("ids:odd-spelling")
+		if _, ok := sp.from[""]; ok {
+			c.Note("ids:empty-string")
+		}
+	}
 	nops := rng.Range(6, 24)
 	next := 5
 	idOps, drains := 0, 0
@@ -870,7 +996,7 @@ func c05Burst(c *Case, rng *Rng, maxPeak int, worker bool) {
 }
 
 func runC05(r *Run) {
-	r.Rule = "random histories of the public TaskQueue operations (addFirst/addLast/addAfter/addBefore/remove/removeFirst/removeLast/Filter/Get) over ids 1..4 (ids present, absent, duplicated; task objects per case always fresh / 40% / always the object used before for the id, plus 'the previous add once more with the very same object'), a set family (2..3 live queues sharing ids and task objects, whole-queue drains by RemoveLast/RemoveFirst/Remove(head id)/Filter/worker Success followed by refills, after every op the items and length of EVERY queue are put to the oracle), a burst family (one queue grown to hundreds..thousands of tasks by AddLast/TailTasks/AddFirst/AddAfter and drained by Remove(id)/worker Success/RemoveLast/RemoveFirst/Filter, every step observed; half of them the operator's pattern tail-burst then worker), a walk (Iterate) parked at its k-th element while Remove is attempted from another goroutine, a queue-dump family (pkg/task/dump over a set of 2..5 queues: per queue the reported length equals the tasks held and listed, the summary adds up), interleaved with worker picks and scripted handler results (Success/Keep/Fail/Repeat with head/after/tail tasks, in half of the results three slices of one backing array with spare capacity) on a real started queue; thorough adds every history of length <= 4 over 2 ids of the slice-level ops (one task object per id). A case is non-trivial when it has >= 3 ops and at least one op addressed an id (addAfter/addBefore/remove/get/result); distinct = distinct op-line sequences."
+	r.Rule = "random histories of the public TaskQueue operations (addFirst/addLast/addAfter/addBefore/remove/removeFirst/removeLast/Filter/Get) over ids 1..4 (ids present, absent, duplicated; in a third of the cases 1..3 of the ids are spelled as unusual strings on the real queue - the empty string, blanks, NUL, near-duplicates of other ids, a 300-byte one - and translated back for the protocol; task objects per case always fresh / 40% / always the object used before for the id, plus 'the previous add once more with the very same object'), a set family (2..3 live queues sharing ids and task objects, whole-queue drains by RemoveLast/RemoveFirst/Remove(head id)/Filter/worker Success followed by refills, after every op the items and length of EVERY queue are put to the oracle), a burst family (one queue grown to hundreds..thousands of tasks by AddLast/TailTasks/AddFirst/AddAfter and drained by Remove(id)/worker Success/RemoveLast/RemoveFirst/Filter, every step observed; half of them the operator's pattern tail-burst then worker), a walk (Iterate) parked at its k-th element while Remove is attempted from another goroutine, a queue-dump family (pkg/task/dump over a set of 2..5 queues: per queue the reported length equals the tasks held and listed, the summary adds up), interleaved with worker picks and scripted handler results (Success/Keep/Fail/Repeat with head/after/tail tasks, in half of the results three slices of one backing array with spare capacity) on a real started queue; thorough adds every history of length <= 4 over 2 ids of the slice-level ops (one task object per id). A case is non-trivial when it has >= 3 ops and at least one op addressed an id (addAfter/addBefore/remove/get/result); distinct = distinct op-line sequences."
 	// corpus: the minimal failing history of the repaired defect (addAfter with an absent id)
 	r.One(0, func(c *Case, _ *Rng) {
 		c.Desc = "corpus: addAfter/addBefore with an absent id"
@@ -965,6 +1091,28 @@ func runC05(r *Run) {
 			}
 		}
 	})
+	r.One(6, func(c *Case, _ *Rng) {
+		c.Desc = "corpus: a task whose id is the empty string (a BaseTask built without Id) is found, removed by id and removed by the worker like any other"
+		c.Nontrivial = true
+		w := newWorkerQ("c05-corpus-6")
+		defer w.close()
+		w.setSpell(&idSpell{to: map[int]string{2: "", 4: " "}, from: map[string]int{"": 2, " ": 4}})
+		c.Note("ids:odd-spelling")
+		c.Note("ids:empty-string")
+		c05Op(c, w, "remove", []int{2}, "", nil, nil, nil)
+		c05Op(c, w, "addLast", []int{1}, "", nil, nil, nil)
+		c05Op(c, w, "addLast", []int{2}, "", nil, nil, nil)
+		c05Op(c, w, "addAfter", []int{2, 3}, "", nil, nil, nil)
+		c05Op(c, w, "addBefore", []int{2, 4}, "", nil, nil, nil)
+		c05Op(c, w, "get", []int{2}, "", nil, nil, nil)
+		c05Op(c, w, "remove", []int{2}, "", nil, nil, nil)
+		c05Op(c, w, "remove", []int{4}, "", nil, nil, nil)
+		c05Op(c, w, "addFirst", []int{2}, "", nil, nil, nil)
+		c05Op(c, w, "pick", nil, "", nil, nil, nil)
+		c05Op(c, w, "result", nil, "success", nil, []int{5}, []int{6})
+		c05Op(c, w, "pick", nil, "", nil, nil, nil)
+		c05Op(c, w, "result", nil, "success", nil, nil, nil)
+	})
 	r.Cases(500000, r.N(60, 600), 0, c05Dump)
 	r.Cases(600000, r.N(1200, 8000), 0, c05Set)
 	maxPeak := r.N(2600, 4500)
@@ -983,6 +1131,15 @@ func runC05(r *Run) {
 		// task objects: always fresh / sometimes / whenever possible the object used before for the id
 		w.pool = newTaskPool(rng, PickOne(rng, []int{0, 0, 40, 100}))
 		c.Note(fmt.Sprintf("objects:reuse%d%%", w.pool.pct))
+		// the spelling of the ids: in a third of the cases 1..3 of the ids 1..7 are unusual strings
+		if rng.Chance(33) {
+			w.setSpell(newIdSpell(rng, []int{1, 2, 3, 4, 1, 2, 3, 4, 5, 6, 7}, rng.Range(1, 3)))
+			c.Desc = w.sp.describe()
+			c.Note("ids:odd-spelling")
+			if _, ok := w.sp.from[""]; ok {
+				c.Note("ids:empty-string")
+			}
+		}
 		var lastAdd struct {
 			op   string
 			args []int
